@@ -78,6 +78,7 @@ func (r *FileRef) AddRef() File {
 
 	r.m.Lock()
 	r.refs++
+	verifRef("FileRef", r, r.refs)
 	file := r.file
 	r.m.Unlock()
 
@@ -94,6 +95,7 @@ func (r *FileRef) DecRef() (err error) {
 	r.m.Lock()
 
 	r.refs--
+	verifRef("FileRef", r, r.refs)
 	if r.refs <= 0 {
 		for _, cb := range r.beforeCloseCallbacks {
 			cb()
